@@ -16,6 +16,7 @@ SPEC = {
 }
 
 NUMS = ['1', '2', '5', '10', '12.5', '99.99', '100', '250', '1000', '1234.56', '0.5', '1000000', '19.9', '3', '12345.678', '0.001', '2500', '7.25', '1234567.891']
+PCTS = ['5', '12.5', '150', '0.5', '1234.5', '2000', '1250000', '1000.25', '99999.9']
 INTS = ['1', '2', '12', '30', '365', '1000', '2500', '10000', '1234567']
 UNITS = [('km', 'mile'), ('mile', 'km'), ('kg', 'lb'), ('stone', 'kg'), ('gb', 'mb'), ('mb', 'byte'), ('inch', 'cm'), ('yard', 'm'), ('tonne', 'kg'), ('oz', 'g'),
          ('kb', 'bit'), ('ft', 'mm'), ('cm', 'km'), ('mg', 'kg'), ('furlong', 'mile'), ('lb', 'oz'), ('tb', 'gb'), ('m', 'ft')]
@@ -30,6 +31,15 @@ def gen_struct(rng):
     codes = lex.rated_codes()
     k = rng.random()
     x, y = rng.choice(NUMS), rng.choice(NUMS)
+    if k < 0.06:
+        # a single literal: it must denote the intended number in every convention (value compared with the canonical digits)
+        form = rng.randrange(3)
+        big = rng.choice(NUMS + ['1234.5', '1250000', '2000', '999999.999', '1000.001', '123456789.5'])
+        if form == 0:
+            return 'literal:number', [N(big)]
+        if form == 1:
+            return 'literal:percent', [('p', big)]
+        return 'literal:money', [N(big), rng.choice(codes)]
     if k < 0.15:
         tree = ge.gen_tree(rng, rng.randint(1, 3), {'suffix': False, 'deep_paren': False, 'group_sign': False, 'detached': False, 'juxt': False})
         items = []
@@ -55,12 +65,12 @@ def gen_struct(rng):
     if k < 0.37:
         form = rng.randrange(4)
         if form == 0:
-            return 'percent', [('p', rng.choice(['5', '12.5', '150', '0.5'])), 'of', N(x)]
+            return 'percent', [('p', rng.choice(PCTS)), 'of', N(x)]
         if form == 1:
-            return 'percent', [N(x), rng.choice('+-'), ('p', rng.choice(['5', '12.5', '150', '0.5']))]
+            return 'percent', [N(x), rng.choice('+-'), ('p', rng.choice(PCTS))]
         if form == 2:
             return 'percent', [N(x), 'is', 'what', '%', 'of', N(y)]
-        return 'percent', [N(x), 'is', ('p', rng.choice(['5', '12.5', '40'])), 'of', 'what']
+        return 'percent', [N(x), 'is', ('p', rng.choice(PCTS[:3] + ['40', '1234.5', '2500'])), 'of', 'what']
     if k < 0.72:
         a, b = rng.choice(UNITS)
         form = rng.randrange(5)
@@ -85,7 +95,7 @@ def gen_struct(rng):
     return 'base', [N(rng.choice(INTS)), 'to', rng.choice(['hex', 'octal', 'binary'])]
 
 
-def render(items, sep, grouped):
+def render(items, sep, grouped, pct_suffix=True):
     lines, cur = [], []
     for it in items:
         if it == '\n':
@@ -96,7 +106,8 @@ def render(items, sep, grouped):
                 lit = render_literal(it[1], sep, grouped)
                 cur.append((it[2] if len(it) > 2 else '') + lit)
             else:
-                cur.append(render_literal(it[1], sep, False) + '%')
+                lit = render_literal(it[1], sep, grouped)
+                cur.append((lit + '%') if pct_suffix else ('%' + lit))
         else:
             cur.append(it)
     lines.append(' '.join(cur))
@@ -138,6 +149,9 @@ def run_shard(ctx):
         structs = [gen_struct(rng) for _ in range(120)]
         pairs = [tuple(rng.sample(SEP_CONFIGS, 2)) for _ in structs]
         groupeds = [(rng.random() < 0.5, rng.random() < 0.5) for _ in structs]
+        pct_suffix = [rng.random() < 0.7 for _ in structs]
+        thou_first = rng.random() < 0.5      # order of the two separator setter calls (the result must not depend on it)
+        res.count('setter_order:thousands-first' if thou_first else 'setter_order:decimal-first')
         results = {}
         texts = {}
         for sep in SEP_CONFIGS:
@@ -145,10 +159,10 @@ def run_shard(ctx):
             items = []
             for i in idx:
                 g = groupeds[i][pairs[i].index(sep)]
-                t = render(structs[i][1], sep, g)
+                t = render(structs[i][1], sep, g, pct_suffix[i])
                 texts[(i, sep)] = t
                 items.append(('en', t))
-            cfg = mon.cfg_with(dec=sep[0], thou=sep[1])
+            cfg = mon.cfg_with(dec=sep[0], thou=sep[1], thou_first=thou_first)
             rs = mon.run_lines(drv, cfg, items)
             for i, r in zip(idx, rs):
                 results[(i, sep)] = r
@@ -163,7 +177,16 @@ def run_shard(ctx):
                 continue
             res.distinct.add(repr(items), s1, s2)
             problem, sig = None, None
-            if va != vb:
+            lit_problem = None
+            if cls.startswith('literal:'):
+                want = float(items[0][1])
+                for s_, slot in ((s1, a), (s2, b)):
+                    kk = mon.kind(slot)
+                    if kk != cls.split(':')[1] or mon.fval(slot) != want or (kk == 'money' and slot['v']['code'].lower() != items[1].lower()):
+                        lit_problem = 'under %r the literal %r denotes %s, intended: %s %r' % (s_, texts[(i, s_)], mon.describe(slot), cls.split(':')[1], want)
+            if lit_problem:
+                problem, sig = lit_problem, 'sep:%s' % cls
+            elif va != vb:
                 problem = 'under %r the line %r gives %s, under %r the line %r gives %s' % (s1, texts[(i, s1)], mon.describe(a), s2, texts[(i, s2)], mon.describe(b))
                 sig = 'sep:value-differs:%s' % cls
             else:
@@ -178,8 +201,8 @@ def run_shard(ctx):
                 if res.cases % 499 == 0:
                     res.sample({'conventions': [s1, s2], 'lines': [texts[(i, s1)], texts[(i, s2)]], 'value': mon.describe(a)})
                 continue
-            cfg1 = mon.cfg_with(dec=s1[0], thou=s1[1])
-            cfg2 = mon.cfg_with(dec=s2[0], thou=s2[1])
+            cfg1 = mon.cfg_with(dec=s1[0], thou=s1[1], thou_first=thou_first)
+            cfg2 = mon.cfg_with(dec=s2[0], thou=s2[1], thou_first=thou_first)
             res.violation(sig, problem, {'lang': 'en', 'text': texts[(i, s1)], 'other_text': texts[(i, s2)], 'conventions': [s1, s2],
                                          'ops': mon.gh.config_ops(cfg1) + [{'op': 'execute', 'lang': 'en', 'text': texts[(i, s1)]}] +
                                                 mon.gh.config_ops(cfg2, seg=False) + [{'op': 'execute', 'lang': 'en', 'text': texts[(i, s2)]}]})
